@@ -52,7 +52,9 @@ def install(M):
         "core::slice::<impl [T]>::split_at_mut": X.sl_split_at,
         "core::slice::<impl [T]>::split_first": X.sl_split_first,
         "core::slice::<impl [T]>::split_last": X.sl_split_last,
-        "core::slice::<impl [T]>::get_mut": X.sl_get,
+        "core::slice::<impl [T]>::get_mut": lambda e, st, a: X.sl_ref(e, st, a, "get"),
+        "core::slice::<impl [T]>::last_mut": lambda e, st, a: X.sl_ref(e, st, a, "last"),
+        "core::slice::<impl [T]>::first_mut": lambda e, st, a: X.sl_ref(e, st, a, "first"),
         "core::slice::<impl [T]>::to_vec": X.sl_to_vec,
         "std::vec::Vec::<T, A>::as_slice": M.m_identity,
         "std::vec::Vec::<T, A>::as_mut_slice": M.m_identity,
@@ -93,6 +95,8 @@ def install(M):
         t[p + "saturating_mul"] = lambda e, st, a: X.i_saturating(e, st, a, "mul")
         t[p + "checked_div"] = lambda e, st, a: X.i_checked_div(e, st, a, "Div")
         t[p + "checked_rem"] = lambda e, st, a: X.i_checked_div(e, st, a, "Rem")
+        t[p + "checked_shl"] = lambda e, st, a: X.i_checked_shift(e, st, a, "Shl")
+        t[p + "checked_shr"] = lambda e, st, a: X.i_checked_shift(e, st, a, "Shr")
         t[p + "abs_diff"] = X.i_abs_diff
         t[p + "min"] = X.i_min
         t[p + "max"] = X.i_max
@@ -378,6 +382,18 @@ class Ext:
         x, y = vs
         out = [(s, "val", NONE) for s in self.I.assume(st, flit(eq(y.l, 0)))]
         for s in self.I.assume(st, flit(ne(y.l, 0))):
+            for s2, v in self.I.binop(s, op, x, y, e, x.ty):
+                out.append((s2, "val", some(v)))
+        return out
+
+    def i_checked_shift(self, e, st, a, op):
+        vs = self._ints(a)
+        if vs is None:
+            return None
+        x, y = vs
+        w = INT_BITS[x.ty]
+        out = [(s, "val", NONE) for s in self.I.assume(st, flit(ge(y.l, w)))]
+        for s in self.I.assume(st, flit(lt(y.l, w))):
             for s2, v in self.I.binop(s, op, x, y, e, x.ty):
                 out.append((s2, "val", some(v)))
         return out
@@ -729,7 +745,7 @@ class Ext:
         wrap = ok if rt.get("def") == "std::result::Result" else (some if rt.get("def") == "std::option::Option" else None)
         if wrap is None:
             return None
-        r = self.I.loops.py_for(e, st, a[0], a[1], lambda s, acc, x: step(s, acc, x) or [(s, "val", Opaque("try_fold"))])
+        r = self.I.loops.py_for(e, st, a[0], a[1], lambda s, acc, x: step(s, acc, x) or [(s, "val", Opaque("try_fold"))], closures=[a[2]])
         if r is None:
             return None
         return [(s, k, (wrap(v) if (k == "val" and exhausted) else v)) for s, k, v, exhausted in r]
@@ -780,6 +796,23 @@ class Ext:
             out += [(s, "val", NONE) for s in self.I.assume(st, f_not(good))]
             return out
         return None
+
+    def sl_ref(self, e, st, a, which):
+        """get_mut(i) / first_mut() / last_mut(): Some(reference to that element) when it exists"""
+        sl = self._slice(st, a[0])
+        if not isinstance(sl, SliceV):
+            return None
+        n = sl.length()
+        if which == "get":
+            if not isinstance(a[1], IntV):
+                return None
+            idx = a[1].l
+        else:
+            idx = lin(0) if which == "first" else n - 1
+        exists = f_and(flit(ge(idx, 0)), flit(lt(idx, n)))
+        out = [(s, "val", some(MemRefV(sl, IntV(idx, "usize")))) for s in self.I.assume(st, exists)]
+        out += [(s, "val", NONE) for s in self.I.assume(st, f_not(exists))]
+        return out
 
     def sl_first(self, e, st, a):
         sl = self._slice(st, a[0])
